@@ -203,6 +203,27 @@ impl Fold {
     }
 }
 
+/// Exact Result
+///
+/// The result of an operation on exact operands is exact whenever it can be
+/// represented. Where the 32-bit rational arithmetic of Number gave up and returned a
+/// float - (/ 65536 1/65536), (- (/ -2147483648 1)) - the operation is redone in
+/// arbitrary precision and narrowed once.
+fn exact_result(
+    x: &Number,
+    y: &Number,
+    result: Number,
+    wide: impl FnOnce(BigRational, BigRational) -> BigRational,
+) -> Number {
+    if result.is_exact() || !x.is_exact() || !y.is_exact() {
+        return result;
+    }
+    match (x.to_big_rational(), y.to_big_rational()) {
+        (Some(x), Some(y)) => Number::from_big_rational(wide(x, y)),
+        _ => result,
+    }
+}
+
 pub fn plus(vm: &mut Vm) -> Result<VCell, Error> {
     let argc = pop_argc(vm, 0, None, "+")?;
     let mut sum = Fold::new(false);
@@ -260,7 +281,8 @@ pub fn minus(vm: &mut Vm) -> Result<VCell, Error> {
     };
 
     if argc == 1 {
-        result *= Number::from(-1);
+        let minus_one = Number::from(-1);
+        result = exact_result(&minus_one, &result, &minus_one * &result, |x, y| x * y);
     }
 
     Ok(VCell::Number(result))
@@ -292,14 +314,12 @@ pub fn divide(vm: &mut Vm) -> Result<VCell, Error> {
         return Err(InvalidSyntax("/ is undefined for 0".into()));
     }
 
-    if argc == 1 {
-        let result = Number::from(1) / y;
-        Ok(result.into())
+    let x = if argc == 1 {
+        Number::from(1)
     } else {
-        let x = pop_number(vm)?;
-        let result = x / y;
-        Ok(result.into())
-    }
+        pop_number(vm)?
+    };
+    Ok(exact_result(&x, &y, &x / &y, |x, y| x / y).into())
 }
 
 pub fn remainder(vm: &mut Vm) -> Result<VCell, Error> {
